@@ -120,13 +120,23 @@ type ClientInst struct {
 }
 
 func NewEnv(sim *simrt.Sim, sch *Schema, property string) (*Env, error) {
+	return NewEnvModels(sim, sch, property, -1)
+}
+
+// NewEnvModels: genVariant >= 0 selects the generated models of that schema variant.
+func NewEnvModels(sim *simrt.Sim, sch *Schema, property string, genVariant int) (*Env, error) {
 	e := &Env{Sim: sim, Sch: sch, Property: property, Servers: map[string]*ServerInst{}, digest: sha256.New(), t0: time.Now(), Probes: map[string]int{}, Faults: map[string]int{}, Known: map[string]int{}, MaxSteps: 200000, MaxSim: 30 * time.Minute, LivelockSteps: 25000}
 	var err error
 	e.LibSch, err = sch.LibSchema()
 	if err != nil {
 		return nil, fmt.Errorf("schema rejected by library decoder: %w", err)
 	}
-	e.CM, e.Types, err = sch.ClientModel()
+	if genVariant >= 0 {
+		e.CM, e.Types, err = GeneratedClientModel(genVariant)
+		e.Probes["generated_models"]++
+	} else {
+		e.CM, e.Types, err = sch.ClientModel()
+	}
 	if err != nil {
 		return nil, err
 	}
